@@ -217,6 +217,11 @@ fn serialize_v0(
     //update num layer records
     s.copy_assign(12, num_layers);
 
+    // the retained base glyphs may have no layer at all: nothing to serialize, the offset stays null
+    if num_layers == 0 {
+        return Ok(());
+    }
+
     //serialize layer records, offset_pos = 8
     let layer_records = colr
         .layer_records()
